@@ -25,7 +25,7 @@ namespace
   void chain_unit_unit(verif::Ctx& c, const std::string& kname)
   {
     typedef UnitFilter<DT, Index> UF;
-    const int N = c.thorough ? 4 : 3;
+    const int N = c.thorough ? 5 : 4;
     for(int n = 0; n <= N; ++n) for(unsigned S1 = 0; S1 < (1u << n); ++S1) for(unsigned S2 = 0; S2 < (1u << n); ++S2) for(int op = 0; op < 5; ++op)
     {
       if(op == 4 && n == 0) continue;
@@ -79,7 +79,7 @@ namespace
   {
     typedef UnitFilter<DT, Index> UF;
     typedef MeanFilter<DT, Index> MF;
-    const int N = c.thorough ? 4 : 3;
+    const int N = c.thorough ? 5 : 4;
     for(int n = 1; n <= N; ++n) for(unsigned S = 0; S < (1u << n); ++S) for(int wv = 0; wv < 2; ++wv) for(int ord = 0; ord < 2; ++ord) for(int op = 0; op < 4; ++op)
     {
       if(!c.want()) continue;
@@ -128,7 +128,7 @@ namespace
   {
     typedef UnitFilterBlocked<DT, Index, 2> UB;
     typedef SlipFilter<DT, Index, 2> SF;
-    const int N = c.thorough ? 4 : 3;
+    const int N = c.thorough ? 5 : 4;
     for(int n = 1; n <= N; ++n) for(unsigned S1 = 0; S1 < (1u << n); ++S1) for(unsigned S2 = 0; S2 < (1u << n); ++S2) for(int nv = 0; nv < 6; nv += 3) for(int op = 0; op < 4; ++op)
     {
       if(!c.want()) continue;
@@ -167,7 +167,7 @@ namespace
   {
     typedef UnitFilter<DT, Index> UF;
     const int n = 2;
-    const int K = c.thorough ? 4 : 3;
+    const int K = c.thorough ? 5 : 4;
     for(int k = 0; k <= K; ++k) for(unsigned code = 0; code < (1u << (n * k)); ++code) for(int how = 0; how < 2; ++how) for(int op = 0; op < 5; ++op)
     {
       if(!c.want()) continue;
@@ -217,7 +217,7 @@ namespace
     typedef MeanFilter<DT, Index> MF;
     typedef DenseVector<DT, Index> DV;
     typedef DenseVectorBlocked<DT, Index, 2> DVB;
-    const int N = c.thorough ? 3 : 2;
+    const int N = c.thorough ? 4 : 3;
     // TupleFilter<Unit, UnitBlocked<2>>
     for(int n1 = 0; n1 <= N; ++n1) for(int n2 = 0; n2 <= N; ++n2) for(unsigned S1 = 0; S1 < (1u << n1); ++S1) for(unsigned S2 = 0; S2 < (1u << n2); ++S2) for(int op = 0; op < 4; ++op)
     {
